@@ -227,3 +227,30 @@ func CheckAtLeastOnce(ops []Op, timeout time.Duration) Result {
 	}
 	return Unknown
 }
+
+// Verdict of Classify.
+type Verdict int
+
+const (
+	VOk          Verdict = iota // linearizable against a per-key register
+	VAtLeastOnce                // not linearizable, but linearizable against the at-least-once register (retransmitted Puts may re-apply)
+	VIllegal                    // not linearizable under either model
+	VUnknown                    // a checker timed out
+)
+
+// Classify runs the strict check and, if it fails, the at-least-once check.
+func Classify(ops []Op, timeout time.Duration) Verdict {
+	switch Check(ops, timeout) {
+	case Ok:
+		return VOk
+	case Unknown:
+		return VUnknown
+	}
+	switch CheckAtLeastOnce(ops, timeout) {
+	case Ok:
+		return VAtLeastOnce
+	case Illegal:
+		return VIllegal
+	}
+	return VUnknown
+}
